@@ -207,6 +207,13 @@ func twins(r *rand.Rand) []*valgen.Node {
 		{valgen.FloatArray(0), valgen.FloatArray(0x80000000), valgen.FloatArray(0, 0), valgen.FloatArray()},
 		{valgen.IP4(1, 2, 3, 4), valgen.IP4(1, 2, 3, 4), valgen.IP4(1, 2, 3, 5), valgen.Blob([]byte{1, 2, 3, 4})},
 		{valgen.Bool(true), valgen.Bool(false), valgen.Bool(true), valgen.Null(), valgen.Null()},
+		// ladders: every length class 0..3 with neighbours inside the class and a proper prefix in the next one
+		{valgen.Text(nil), valgen.Text([]byte("a")), valgen.Text([]byte("b")), valgen.Text([]byte("aa")), valgen.Text([]byte("ab")), valgen.Text([]byte("b\x00")),
+			valgen.Text([]byte("abc")), valgen.Text([]byte("abd")), valgen.Text(s), valgen.Text([]byte("b"))},
+		{valgen.Blob([]byte{}), valgen.Blob([]byte{1}), valgen.Blob([]byte{2}), valgen.Blob([]byte{1, 0}), valgen.Blob([]byte{1, 255}), valgen.Blob([]byte{2, 0}),
+			valgen.Blob([]byte{1, 0, 7}), valgen.Blob([]byte{1, 0, 8}), valgen.Blob(append(append([]byte{}, s...), 9, 9, 9, 9, 1)), valgen.Blob(append(append([]byte{}, s...), 9, 9, 9, 9, 2))},
+		{valgen.TextArray(), valgen.TextArray(s), valgen.TextArray([]byte("a")), valgen.TextArray([]byte("a"), []byte("a")), valgen.TextArray([]byte("a"), []byte("b")),
+			valgen.TextArray([]byte("b")), valgen.LongArray(), valgen.LongArray(v), valgen.LongArray(v, v), valgen.LongArray(v, v+1), valgen.LongArray(v+1)},
 	}
 	return all[r.Intn(len(all))]
 }
@@ -316,8 +323,8 @@ func Run(c *core.Ctx) error {
 			r := c.Rng("family", cas)
 			ns := family(r, 14)
 			ns = append(ns, twins(r)...)
-			if len(ns) > size+2 {
-				ns = ns[:size+2]
+			if len(ns) > size+6 {
+				ns = ns[:size+6]
 			}
 			judge(c, t, "family", cas, ns)
 			if cas == 0 {
